@@ -67,7 +67,7 @@ def config_args(rng, acc=None, mode=None):
 
 
 D2_FAMS = ["conv_chain", "conv_chain_big", "weights_heavy", "single", "diamond", "mixed_cpu", "lut_heavy", "ew_dag", "weights_heavy",
-           "multi_custom", "siamese", "lut_mixed", "pow2_rescale", "narrowing_chain", "memcpy_reshape", "one_channel_tail", "mixed_exact", "lstm"]
+           "multi_custom", "siamese", "lut_mixed", "pow2_rescale", "narrowing_chain", "memcpy_reshape", "one_channel_tail", "mixed_exact", "lstm", "rewrite_patterns", "cpu_fan"]
 D2_STRATA = [  # (accelerator, memory mode, system config) combinations that must always be present
     ("ethos-u65-512", "Dedicated_Sram", "Ethos_U65_High_End"), ("ethos-u65-256", "Dedicated_Sram", "Ethos_U65_Mid_End"),
     ("ethos-u65-512", "Shared_Sram", "Ethos_U65_Embedded"), ("ethos-u65-256", "Sram_Only", "Ethos_U65_High_End"),
